@@ -169,6 +169,19 @@ def run(ctx):
             selt = "SelDefault" if s[0] == "default" else "(SelIndex %s)" % ni(s[1]) if s[0] == "index" else "(SelPath %s)" % tx(s[1])
             terms.append("c16_account %s %s %s" % (tx(a["phrase"]), tx(a["pw"]), selt))
         ms = ctx.model(terms, label="C16", timeout=1800)
+        def selt(s):
+            return "SelDefault" if s[0] == "default" else "(SelIndex %s)" % ni(s[1]) if s[0] == "index" else "(SelPath %s)" % tx(s[1])
+        sg = sub[:4 if not thorough else 20]
+        from coqrun import pb
+        st = ["c16_sign_message %s %s %s %s" % (tx(a["phrase"]), tx(a["pw"]), selt(a["sel"]), pb(msg)) for a in sg] + \
+             ["c16_sign_raw %s %s %s %s" % (tx(a["phrase"]), tx(a["pw"]), selt(a["sel"]), pb(raw)) for a in sg]
+        mss = ctx.model(st, label="C16sig", timeout=1800)
+        for i, m in enumerate(mss):
+            a = sg[i % len(sg)]
+            ctx.count("model/sign")
+            want = sig_text(a["key"], d_msg if i < len(sg) else raw)
+            if m is not None and (m.tag != "ok" or m.fields[0].decode() != want):
+                ctx.violation("sign-vs-model", dict(mnemonic=a["phrase"], selector=a["sel"], what="message" if i < len(sg) else "raw"), want, str(m)[:300])
         for a, m in zip(sub, ms):
             ctx.count("model/account")
             key = a["key"]
